@@ -58,6 +58,12 @@ func c03(c *Ctx) {
 			f.ImportGroup = true
 		case 2:
 			f.Imports = append(f.Imports, `"context"`, `"io"`) // duplicates of goht's own
+			if i%2 == 0 {
+				f.Imports = append(f.Imports, `"github.com/stackus/goht"`)
+			}
+			// goht's own imports in every position of the list (first, middle, last), grouped or not
+			c.R.Shuffle(len(f.Imports), func(a, b int) { f.Imports[a], f.Imports[b] = f.Imports[b], f.Imports[a] })
+			f.ImportGroup = i%4 == 0
 			f.Templates = append(f.Templates, &gen.Template{Name: "Rcv", Recv: "(o Obj) ", Sig: "(x interface{ F(int) string }, g func(int) (int, error))",
 				Body: []*gen.Node{{Kind: gen.KElem, Tag: "p", Inline: &gen.Node{Kind: gen.KScript, Expr: "o.ID"}}}})
 		}
